@@ -34,6 +34,7 @@ pub fn run_property(id: &str, tier: Tier, replay: Option<(String, Value)>) -> i3
         "C04" => c04,
         "C05" => c05,
         "C06" => c06,
+        "C07" => c07,
         "C08" => c08,
         "C09" => c09,
         "C10" => c10,
